@@ -99,3 +99,30 @@ Lemma rank_bound : forall s, good s = true -> owed s = true -> rank s <= 7.
 Proof.
   intros [p f r w m o] G O. cbn in O. subst o. destruct p, f, w; cbn in *; try lia; discriminate.
 Qed.
+
+(* ------------------------------------------------------------------ the order matters *)
+
+(* With task_waker.wake() BEFORE can_start_tick.store(true) a wake-up is missed: the runner
+   parks (7 steps); the external waker notifies (the runner is woken, data has arrived); the
+   runner is polled at once: re-registers, reads the flag still false, parks again; only then
+   the flag is stored.  Final state: a tick is owed, the runner is parked and not woken, no half
+   of any wake is pending -- nothing will ever move again. *)
+Definition nf_trace : list wlabel :=
+  [Runner; Runner; Runner; Runner; Runner; Runner; Runner; WNotify; Runner; Runner; Runner; WStore].
+
+Lemma wrun_nf_reach : forall tr s sf, wreach_nf s -> wrun_nf s tr = Some sf -> wreach_nf sf.
+Proof.
+  induction tr as [|l tr IH]; intros s sf R W; cbn in W.
+  - inversion W; subst. exact R.
+  - destruct (wstep_nf s l) as [[s1 t]|] eqn:St; [|discriminate].
+    eapply IH; [eapply wrn_step; eassumption|exact W].
+Qed.
+
+Lemma notify_first_refuted :
+  exists s, wreach_nf s /\ owed s = true /\ stuck s = true /\ flag s = true /\
+            runner_enabled s = false /\ mid s = 0.
+Proof.
+  destruct (wrun_nf winit nf_trace) as [s|] eqn:E; [|vm_compute in E; discriminate].
+  exists s. split; [eapply wrun_nf_reach; [apply wrn_init|exact E]|].
+  vm_compute in E. injection E as Es. subst s. cbn. auto.
+Qed.
